@@ -9,30 +9,47 @@ import json
 import os
 import sys
 
-NAMES = ["a", "b", "c", "d", "e", "g", "zz", "trigger_type"]
-UNIVERSAL = {"po": [], "pk": [], "ndef": 0, "va": True, "ko": [], "kw": True}
+# Parameter names of the family.  In every naming one parameter of each kind is named like a reserved trigger
+# keyword, so reserved keywords occur at the call both DECLARED (they must bind like any other name) and
+# undeclared (trigger_type: the intended deviation drops it when there is no **kwargs); zz is an unknown name.
+# Naming A is the family of spec/PyBindMC.tla (reserved names second / first / first); B is its complement
+# (reserved names in the other positions, and the *args / **kwargs catch-alls named like reserved keywords too).
+NAMINGS = {
+    "A": {"po": ["a", "value"], "pk": ["context", "d"], "ko": ["qos", "g"], "va": "va", "kw": "kw"},
+    "B": {"po": ["old_value", "b"], "pk": ["c", "var_name"], "ko": ["e", "payload"], "va": "retain", "kw": "topic"},
+}
+UNIVERSAL = {"po": [], "pk": [], "ndef": 0, "va": True, "ko": [], "kw": True, "vaname": "va", "kwname": "kw"}
+
+
+def names_of(naming="A"):
+    nm = NAMINGS[naming]
+    return nm["po"] + nm["pk"] + nm["ko"] + ["zz", "trigger_type"]
 
 
 # ------------------------------------------------------------------------------ the family
-def sigs():
+def sigs(naming="A"):
     """All signatures with <= 2 parameters of each kind and every default pattern (756)."""
+    nm = NAMINGS[naming]
     out = []
-    for po in ([], ["a"], ["a", "b"]):
-        for pk in ([], ["c"], ["c", "d"]):
+    k1, k2 = nm["ko"]
+    for po in ([], nm["po"][:1], nm["po"]):
+        for pk in ([], nm["pk"][:1], nm["pk"]):
             n = len(po) + len(pk)
             for ndef in range(n + 1):
                 for va in (False, True):
-                    for ko in ([], [("e", False)], [("e", True)], [("e", False), ("g", False)], [("e", True), ("g", False)],
-                               [("e", False), ("g", True)], [("e", True), ("g", True)]):
+                    for ko in ([], [(k1, False)], [(k1, True)], [(k1, False), (k2, False)], [(k1, True), (k2, False)],
+                               [(k1, False), (k2, True)], [(k1, True), (k2, True)]):
                         for kw in (False, True):
                             out.append({"po": po, "pk": pk, "ndef": ndef, "va": va,
-                                        "ko": [{"name": a, "hasdef": b} for a, b in ko], "kw": kw})
+                                        "ko": [{"name": a, "hasdef": b} for a, b in ko], "kw": kw,
+                                        "vaname": nm["va"], "kwname": nm["kw"]})
     return out
 
 
-def flat_calls():
-    """All flattened calls: 0-4 positional values x keyword lists of <= 3 names out of NAMES
+def flat_calls(naming="A"):
+    """All flattened calls: 0-4 positional values x keyword lists of <= 3 names out of the naming's names
     (distinct, or <= 2 distinct names with one of them repeated: only expressible through **)."""
+    NAMES = names_of(naming)
     kwlists = []
     for k in range(4):
         for ks in itertools.combinations(NAMES, k):
@@ -85,7 +102,7 @@ def realise(call, r):
     return {"pos": pos, "kws": kws}
 
 
-def all_shapes():
+def all_shapes(naming="A"):
     """Every way of writing a call with <= 4 positional values and <= 3 keywords (31 600), as
     enumerated by spec/PyBindFlat.tla."""
     pos_shapes = [plain(a) for a in range(5)]
@@ -93,7 +110,7 @@ def all_shapes():
         for b in range(5 - a):
             for c in range(5 - a - b):
                 pos_shapes.append(plain(a) + [{"star": True, "n": b}] + plain(c))
-    kwsets = [list(ks) for k in range(4) for ks in itertools.combinations(NAMES, k)]
+    kwsets = [list(ks) for k in range(4) for ks in itertools.combinations(names_of(naming), k)]
     kw_shapes = [[{"star": False, "names": [k]} for k in e] for e in kwsets]
     for e in kwsets:
         for m in kwsets:
@@ -106,21 +123,22 @@ def all_shapes():
 def sig_source(sig):
     P = sig["po"] + sig["pk"]
     n = len(P)
+    va, kw = sig.get("vaname", "va"), sig.get("kwname", "kw")
     parts = []
     for i, p in enumerate(P):
         parts.append(p + ("='D_%s'" % p if i >= n - sig["ndef"] else ""))
         if sig["po"] and i == len(sig["po"]) - 1:
             parts.append("/")
     if sig["va"]:
-        parts.append("*va")
+        parts.append("*" + va)
     elif sig["ko"]:
         parts.append("*")
     for k in sig["ko"]:
         parts.append(k["name"] + ("='D_%s'" % k["name"] if k["hasdef"] else ""))
     if sig["kw"]:
-        parts.append("**kw")
+        parts.append("**" + kw)
     names = P + [k["name"] for k in sig["ko"]]
-    items = ["'%s': %s" % (x, x) for x in names] + (["'*': va"] if sig["va"] else []) + (["'**': kw"] if sig["kw"] else [])
+    items = ["'%s': %s" % (x, x) for x in names] + (["'*': " + va] if sig["va"] else []) + (["'**': " + kw] if sig["kw"] else [])
     return "def f(%s):\n    return {%s}\n" % (", ".join(parts), ", ".join(items))
 
 
@@ -259,13 +277,13 @@ class Tables:
 _REAL = {}
 
 
-def realised(C, ci, r):
-    v = _REAL.get((ci, r))
+def realised(C, ci, r, naming="A"):
+    v = _REAL.get((naming, ci, r))
     if v is None:
         shape = realise(C[ci], r)
         src = shape_source(shape)
         nargs = sum(it["n"] for it in shape["pos"]) + sum(len(it["names"]) for it in shape["kws"])
-        v = _REAL[(ci, r)] = (shape, src, compile(src, "<call>", "eval"), nargs)
+        v = _REAL[(naming, ci, r)] = (shape, src, compile(src, "<call>", "eval"), nargs)
     return v
 
 
@@ -277,16 +295,20 @@ def reals_of(si, ci, nreal):
 def group_calls(job, si, who):
     """The calls of the group of signature si in job order: (ci, r) for every executed call.  Used by the worker
     and by the driver (to map a rejection [group, index] back to the call)."""
-    nC = len(flat_calls())
+    nC = len(flat_calls(job.get("naming", "A")))
+    cm = job.get("cpy_mod", 0)          # 0: CPython executes every call of the family; m: the same 1/m sample as pyscript
     for ci in range(nC):
         for r in reals_of(si, ci, job["nreal"]):
-            if who == "cpython" or (job["py_mod"] and (si * 7919 + ci + r) % job["py_mod"] == job["py_rem"]):
+            if who == "cpython":
+                if not cm or (si * 7919 + ci + r) % cm == job["py_rem"] % cm:
+                    yield ci, r
+            elif job["py_mod"] and (si * 7919 + ci + r) % job["py_mod"] == job["py_rem"]:
                 yield ci, r
 
 
 def universal_calls(job, who):
     k0, of = job["shapes_slice"]
-    for j in range(len(all_shapes())):
+    for j in range(len(all_shapes(job.get("naming", "A")))):
         if j % of == k0 and (who == "cpython" or (job["py_mod"] and j % (job.get("shapes_py_mod") or 1) == 0)):
             yield j
 
@@ -295,10 +317,12 @@ def run_family(job, reserved):
     """Executes the job's slice of the family; returns (casefile dict, stats).  job keys:
        sigs: list of signature indices; nreal: written realisations per pair;
        py_mod/py_rem: pyscript executes the calls with (si * 7919 + ci + r) % py_mod == py_rem (py_mod 0: none);
+       naming: "A" | "B" (parameter names, see NAMINGS); cpy_mod: CPython executes only the pyscript sample (0: all);
        shapes_slice: [k, of] - additionally the universal signature f(*va, **kw) x every written shape j with
        j % of == k (pyscript: those with j % shapes_py_mod == 0)."""
-    S = sigs()
-    C = flat_calls()
+    naming = job.get("naming", "A")
+    S = sigs(naming)
+    C = flat_calls(naming)
     T = Tables()
     groups = []
     stats = {"pairs": 0, "cpy_calls": 0, "pys_calls": 0, "nontrivial": 0, "ok": 0, "typeerror": 0, "locus": {},
@@ -313,7 +337,7 @@ def run_family(job, reserved):
         calls = []
         nok = 0
         for ci, r in group_calls(job, si, "cpython"):
-            shape, src, code, nargs = realised(C, ci, r)
+            shape, src, code, nargs = realised(C, ci, r, naming)
             try:
                 o = T.outcome(observe(sig, eval(code, g)))
                 nok += 1
@@ -332,12 +356,12 @@ def run_family(job, reserved):
         pc = list(group_calls(job, si, "pyscript"))
         if pc:
             todo_pys.append(({"id": "p.%d" % si, "who": "pyscript", "sig": sig, "res": reserved, "calls": []},
-                             [realised(C, ci, r) for ci, r in pc], g))
+                             [realised(C, ci, r, naming) for ci, r in pc], g))
     if job.get("shapes_slice"):
         usig = UNIVERSAL
         g = {}
         exec(sig_source(usig), g)
-        SH = all_shapes()
+        SH = all_shapes(naming)
         calls = []
         for j in universal_calls(job, "cpython"):
             src = shape_source(SH[j])
